@@ -1,6 +1,15 @@
-"""Registry: which solver queries decide which property, at which tier."""
+"""Registry: which solver queries decide which property, at which tier.
 
-# Unwind rules shared by all harnesses that run crate code over KFS.
+A *unit* is one bounded solver query: a Kani harness (K) or an engine-M obligation set (M).
+Units are defined once (UNITS) and shared: KFS's stubs carry the guarantee-side assertions of
+several properties (tagged `KV-Cxx: ...`), so one harness run can serve several properties; a
+property's check only counts assertions carrying its own tag (plus untagged failures inside crate
+code), so a failure is attributed to the property whose statement it breaks.
+"""
+import os
+import re
+
+
 def fs_rules(n_sort=4, crate_bound=8, path_bound=40):
     return [
         (r"sort|smallsort|insert_tail|bidirectional_merge|heapsort|quicksort|partition", n_sort + 2),
@@ -11,119 +20,242 @@ def fs_rules(n_sort=4, crate_bound=8, path_bound=40):
 
 
 class K:
-    """One Kani harness = one bounded solver query over the compiled crate."""
     kind = "kani"
 
-    def __init__(self, group, name, *, tiers=("quick", "thorough"), timeout=1200, mem_gb=8,
-                 functions=(), bounds="", expect="pass", rules=None, notes="", weight=1,
-                 panic_ok=()):
+    def __init__(self, group, name, *, timeout=1500, mem_gb=10, functions=(), bounds="", expect="pass",
+                 rules="fs", notes="", panic_ok=()):
         self.group = group
         self.name = name
-        self.tiers = tiers
+        self.tiers = ("quick", "thorough")
         self.timeout = timeout
         self.mem_gb = mem_gb
         self.functions = list(functions)
         self.bounds = bounds
-        self.expect = expect          # "pass" | "fail" (sanity twin: must come back violated)
-        self.rules = rules
+        self.expect = expect
+        self.replay = "playback" if rules is None else "scenario"
+        self.rules = fs_rules() if rules == "fs" else rules
         self.notes = notes
-        self.weight = weight
-        self.panic_ok = tuple(panic_ok)   # documented panics (message substrings) tolerated
+        self.panic_ok = tuple(panic_ok)
 
 
 class M:
-    """One MIR->SMT obligation set (engine M)."""
     kind = "smt"
 
-    def __init__(self, name, *, tiers=("quick", "thorough"), functions=(), bounds="", notes=""):
+    def __init__(self, name, *, functions=(), bounds="", notes=""):
         self.name = name
-        self.tiers = tiers
+        self.tiers = ("quick", "thorough")
         self.functions = list(functions)
         self.bounds = bounds
         self.notes = notes
         self.group = None
+        self.expect = "pass"
+        self.timeout = 300
+        self.mem_gb = 1
+        self.rules = None
+        self.panic_ok = ()
+        self.replay = "native-eval"
 
+
+class Use:
+    """A unit as used by one property at given tiers."""
+
+    def __init__(self, u, tiers):
+        self.__dict__.update(u.__dict__)
+        self.kind = u.kind
+        self.tiers = tiers
+
+
+UNITS = {}
+
+
+def unit(u):
+    UNITS[u.name] = u
+    return u
+
+
+PLANNER = ["second_chance::Update::new", "alloc::slice::sort_by_cached_key (std, real)"]
+RAW = ["raw_cache::{insert_or_update,insert_or_touch,touch,ensure_file_touched,move_to_back_of_list,set_read_only,ensure_file_removed}",
+       "raw_cache::{collect_cached_files,apply_update,CachedFile::new}", "benign_error::is_absent_file_error"]
+PLAIN = ["plain::Cache::{new,get,touch,set,put}", "cache_dir::CacheDir::{get,touch,set,put,maybe_cleanup,definitely_cleanup,cleanup_temp_directory}",
+         "cache_dir::{validate_file_name,cleanup_temporary_directory,ensure_directory}", "trigger::{PeriodicTrigger::{new,event,weighted_event},observe}"] + RAW
+SHARDED = ["sharded::Cache::{new,get,touch,set,put,shard,sort_by_load,other_shard_id,update_estimate,force_maintain_shard,maintain_random_other_shard}",
+           "sharded::{format_id,Shard::{replace_shard,file_exists}}"] + PLAIN[1:]
+STACK = ["stack::{CacheBuilder::*,Cache::{get,touch,ensure,get_or_update,set,put,set_temp_file,put_temp_file,maybe_sync_path},finalize_tempfile}",
+         "readonly::{ReadOnlyCacheBuilder::*,ReadOnlyCache::{get,touch}}", "byte_equality_checker"] + SHARDED
+CDIR = ["cache_dir::validate_file_name", "cache_dir::cleanup_temporary_directory", "std::path::PathBuf::push (real)"]
+VEC_STUBS = ["Vec::new -> Vec::with_capacity(8) (same abstract value; avoids CBMC's integer-address model of dangling buffers)",
+             "Vec::reserve -> assert!(capacity suffices) (growth path cut; a failure is reported as inconclusive)"]
+
+# ---- planner (no filesystem) ---------------------------------------------------------------
+for n, b, t, m in [("c08_n0", "n=0, capacity: any usize", 600, 4), ("c08_n1", "n=1, ranks<4, flags any, capacity: any usize; full plan", 600, 4),
+                   ("c08_n2", "n=2, ranks<4, flags any, capacity: any usize; full plan", 1200, 8),
+                   ("c08_n2_fullrank", "n=2, ranks: any u8, flags any, capacity: any usize; full plan", 1200, 8),
+                   ("c08_n3_evicted", "n=3, ranks<4, flags any, capacity: any usize; to_evict contents + both lengths", 2400, 12),
+                   ("c08_n4_evicted", "n=4, ranks<4, flags any, capacity: any usize; to_evict contents + both lengths", 7200, 40),
+                   ("c08_spec_planner_n2", "n=2: the planner model used by other harnesses satisfies the same oracle", 900, 12),
+                   ("c08_spec_planner_n3", "n=3: the planner model used by other harnesses satisfies the same oracle", 1800, 12)]:
+    unit(K("second_chance", n, functions=PLANNER, bounds=b, timeout=t, mem_gb=m, rules=None))
+unit(K("second_chance", "c08_sanity_twin", expect="fail", bounds="n=2", timeout=1200, mem_gb=8, rules=None,
+       notes="vacuity witness: same body ending in assert!(false) must be violated"))
+
+# ---- raw_cache on KFS --------------------------------------------------------------------------
+for n, b in [("kfs_selftest", "KFS fabrication of Metadata/paths re-validated through the public accessors"),
+             ("raw_insert_or_update_basic", "key present/absent, any source mode, any atime policy, granularity {1ns,1s,2s}"),
+             ("raw_insert_or_touch_basic", "key present/absent, any source mode, any atime policy, granularity {1ns,1s,2s}"),
+             ("raw_touch_basic", "key present/absent, any policy/granularity"),
+             ("raw_collect_ab_sub", "listing {ka, kb, sd/}: times symbolic, ka may vanish between readdir and stat"),
+             ("raw_collect_a_temp", "listing {ka, .kismet_temp/}"), ("raw_collect_a_app", "listing {ka, .p}"),
+             ("raw_collect_empty_temp", "listing {.kismet_temp/}; missing directory"),
+             ("raw_apply_update_evict_a_moveback_b", "plan evict [ka] move back [kb]; either may have vanished"),
+             ("raw_apply_update_moveback_a_b", "plan move back [ka, kb]; ka may have vanished"),
+             ("raw_prune_pieces_dotfile_only", "collect + capacity-0 plan + apply_update on {.p}"),
+             ("raw_prune_pieces_dotfile_and_a", "collect + capacity-0 plan + apply_update on {ka, .p}")]:
+    unit(K("raw_ops", n, functions=RAW, bounds=b, timeout=1500, mem_gb=16 if ("ab_sub" in n or "and_a" in n) else 10))
+unit(K("raw_ops", "raw_ops_sanity_twin", functions=RAW, expect="fail", timeout=900))
+
+# ---- plain cache ----------------------------------------------------------------------------------
+for n in ["plain_get_seq", "plain_get_env", "plain_get_fault", "plain_touch_seq", "plain_touch_env", "plain_touch_fault",
+          "plain_set_seq", "plain_put_seq", "plain_set_env", "plain_put_env", "plain_set_fault", "plain_put_fault", "plain_invalid_names"]:
+    mode = "rely environment (any number of peers: rebinding, eviction, mkdir, restamping) between every two calls" if n.endswith("env") else \
+        "one injected failure at any call, errno in {EIO,EACCES,ENOSPC,ESTALE,..}" if n.endswith("fault") else "sequential"
+    unit(K("plain_ops", n, functions=PLAIN, timeout=3000 if ("set" in n or "put" in n) else 1200, mem_gb=12,
+           bounds="2 keys, each present/absent; directory present/missing; any capacity; any RNG draw; " + mode))
+unit(K("plain_ops", "plain_ops_sanity_twin", functions=PLAIN, expect="fail", timeout=1200, mem_gb=12))
+
+# ---- cache_dir --------------------------------------------------------------------------------------
+unit(K("cache_dir_ops", "c16_validator", functions=CDIR, bounds="every ASCII name of <= 3 bytes", timeout=600, rules=None))
+unit(K("cache_dir_ops", "c16_confinement", functions=CDIR, bounds="every accepted ASCII name of 1..3 bytes", timeout=900, rules=None))
+unit(K("cache_dir_ops", "c16_sanity_twin", functions=CDIR, expect="fail", timeout=600, rules=None))
+unit(K("cache_dir_ops", "c02_cleanup_temp_by_age", functions=CDIR, bounds="2 temp files, ages on both sides of and at the limit, any clock", timeout=1200))
+unit(K("cache_dir_ops", "c02_cleanup_temp_missing_dir", functions=CDIR, timeout=600))
+
+# ---- sharded cache ------------------------------------------------------------------------------------
+for n in ["sharded_get_01", "sharded_get_10", "sharded_touch_01", "sharded_set_01_seq", "sharded_put_10_seq", "sharded_set_01_env",
+          "sharded_put_01_fault"]:
+    unit(K("sharded_ops", n, functions=SHARDED, timeout=3600, mem_gb=12,
+           bounds="3 shards, candidate shards fixed to (0,1)/(1,0) (mapping itself: engine M), each shard dir present/missing, "
+                  "key absent / in primary / in secondary, arbitrary load estimates"))
+unit(K("sharded_ops", "c12_new_clamps", functions=["sharded::Cache::new"], bounds="num_shards 0..3, any capacity", timeout=900, rules=None))
+unit(K("sharded_ops", "c12_format_id", functions=["sharded::format_id (real format!)"], bounds="shard index < 2^20", timeout=1500, rules=None))
+unit(K("sharded_ops", "c12_constants", functions=["sharded::{PRIMARY_MIXER,SECONDARY_MIXER} (const-evaluated new_keyed)"], timeout=600, rules=None))
+unit(K("sharded_ops", "sharded_ops_sanity_twin", functions=SHARDED, expect="fail", timeout=3000, mem_gb=12))
+
+# ---- stacked caches --------------------------------------------------------------------------------------
+_root = os.path.dirname(os.path.dirname(os.path.dirname(os.path.abspath(__file__))))
+STACK_NAMES = re.findall(r"stack_harness!\((\w+),", open(os.path.join(_root, "harness", "stack_ops.rs")).read())
+for n in STACK_NAMES:
+    unit(K("stack_ops", n, functions=STACK, timeout=3600, mem_gb=14,
+           bounds="per level: key absent / value A / value B; populate outcome {value, NotFound, other error}; judge answer any",
+           panic_ok=("auto_sync failed, and failure semantics are unclear",) if "fault" in n else ()))
+unit(K("stack_ops", "stack_ops_sanity_twin", functions=STACK, expect="fail", timeout=3600, mem_gb=14))
+
+# ---- engine M ---------------------------------------------------------------------------------------------
+unit(M("c12_mapping", functions=["multiplicative_hash::{reduce,mix,map}", "sharded::Cache::{shard_ids,other_shard_id}"],
+       bounds="all u64 hashes, all usize shard counts >= 2, any mixer constants"))
+unit(M("c10_trigger", functions=["trigger::PeriodicTrigger::new", "trigger::observe::{closure#0}", "plain::Cache::new"],
+       bounds="all periods / capacities / random draws (integer encoding, no bit-width cut)"))
+unit(M("c07_prune_glue", functions=["raw_cache::prune"], bounds="all capacities; callees uninterpreted under their proven contracts"))
 
 PROPS = {}
 
 
-def prop(pid, units, **kw):
+def prop(pid, quick, thorough=(), **kw):
+    units = [Use(UNITS[n], ("quick", "thorough")) for n in quick] + [Use(UNITS[n], ("thorough",)) for n in thorough]
     PROPS[pid] = dict(units=units, **kw)
 
 
-# ------------------------------------------------------------------------------------------
-PLANNER = ["second_chance::Update::new", "alloc::slice::sort_by_cached_key (std, real)"]
+COMMON_ASSUME = ["Kani/CBMC/CaDiCaL verdicts", "the KFS model (harness/kfs.rs): one POSIX step per call, local-filesystem atomicity",
+                 "every #[kani::stub] listed in harness/kfs.rs::kfs_harness is part of the claim"]
+RELY = "rely/guarantee: between any two calls of the operation the shared directories move to any state other participants' protocol steps can produce"
 
-VEC_STUBS = ["Vec::new -> Vec::with_capacity(8) (same abstract value)",
-             "Vec::reserve -> assert!(capacity suffices) (growth path cut; failure => inconclusive)"]
+prop("C01", ["plain_get_env", "raw_insert_or_update_basic", "raw_insert_or_touch_basic", "raw_ops_sanity_twin"],
+     ["plain_set_env", "plain_put_env", "sharded_get_01", "sharded_set_01_env", "stack_get_w1r1_nock", "stack_gou_w1r1_nock", "stack_gou_w2r1_nock",
+      "stack_set_temp_w1r1", "plain_set_seq", "plain_put_seq"],
+     outside=["byte-granular reads (values are abstracted to content ids; 'complete' is set only by the last write)", "NFS close-to-open semantics",
+              "peers that violate the protocol"], assumptions=COMMON_ASSUME + [RELY])
+prop("C02", ["raw_insert_or_update_basic", "raw_insert_or_touch_basic", "c02_cleanup_temp_by_age", "c02_cleanup_temp_missing_dir",
+             "raw_apply_update_evict_a_moveback_b", "raw_ops_sanity_twin"],
+     ["plain_set_seq", "plain_put_seq", "plain_set_fault", "sharded_set_01_seq", "sharded_put_10_seq", "stack_gou_w1r1_nock", "stack_set_temp_w1r1",
+      "raw_apply_update_moveback_a_b"],
+     outside=["power-loss reordering of un-fsynced directory updates (documented: directories are not fsynced)",
+              "validity is asserted at every call boundary of KFS, i.e. at every point where the process can die between two system calls"],
+     assumptions=COMMON_ASSUME)
+prop("C03", ["raw_insert_or_update_basic", "raw_insert_or_touch_basic", "stack_set_temp_w1r1", "stack_set_temp_w1r1_fault", "stack_ops_sanity_twin"],
+     ["stack_gou_w1r1_nock", "stack_gou_w1r1_fault", "stack_set_w1r1", "stack_set_w1r1_fault", "stack_put_w1r1", "stack_put_temp_w2r0",
+      "stack_gou_w2r1_nock", "stack_gou_w1r1_nosync"],
+     outside=["whether the kernel's fsync is durable", "value sizes (content ids)"], assumptions=COMMON_ASSUME)
+prop("C04", ["plain_get_env", "plain_touch_env", "raw_insert_or_touch_basic", "raw_touch_basic", "raw_ops_sanity_twin"],
+     ["plain_put_env", "plain_set_env", "plain_put_seq", "stack_put_w1r1"],
+     outside=["linearizability is decided as a forward simulation per operation (linearization point = the publishing / opening call), not by enumerating histories"],
+     assumptions=COMMON_ASSUME + [RELY])
+prop("C05", ["plain_get_env", "plain_touch_env", "raw_apply_update_evict_a_moveback_b", "raw_collect_a_temp", "raw_ops_sanity_twin"],
+     ["plain_set_env", "plain_put_env", "sharded_set_01_env", "raw_apply_update_moveback_a_b", "raw_collect_ab_sub", "sharded_set_01_seq"],
+     outside=["adversarial deletion of young temp files (excluded by the property)"], assumptions=COMMON_ASSUME + [RELY])
+prop("C06", ["plain_get_env", "plain_touch_env", "plain_ops_sanity_twin"],
+     ["plain_set_env", "plain_put_env", "sharded_set_01_env"],
+     outside=["blocking inside the kernel", "step bounds are asserted as call-count constants under every environment answer, with unwinding assertions on"],
+     assumptions=COMMON_ASSUME + [RELY])
+prop("C07", ["c07_prune_glue", "raw_collect_a_temp", "raw_collect_a_app", "raw_collect_empty_temp", "raw_apply_update_evict_a_moveback_b",
+             "raw_apply_update_moveback_a_b", "raw_ops_sanity_twin"],
+     ["raw_collect_ab_sub", "raw_prune_pieces_dotfile_and_a", "c08_n2", "c08_n3_evicted"],
+     outside=["listings of more than 3 entries; plans of more than 2 entries", "the composition prune = apply_update . planner . listing is decided on the MIR of prune "
+              "with the three callees uninterpreted (engine M); each callee by its own harnesses; the planner itself is C08"],
+     assumptions=COMMON_ASSUME)
+prop("C08", ["c08_n0", "c08_n1", "c08_n2", "c08_n2_fullrank", "c08_sanity_twin"], ["c08_n3_evicted", "c08_spec_planner_n2", "c08_spec_planner_n3", "c08_n4_evicted"],
+     outside=["n > 2 for the contents of to_move_back; n > 4 for to_evict (CBMC runs out of memory on Vec::drain's memmove with a symbolic length; measured)",
+              "rank domains other than {0..3} / u8; the planner only uses ranks through Ord",
+              "tie order is left free by the oracle (the statement says 'under some ordering of equally ranked entries')"],
+     assumptions=["Kani/CBMC model of alloc::vec and core::slice::sort is faithful", "CaDiCaL verdicts"] + VEC_STUBS)
+prop("C09", ["plain_get_seq", "plain_touch_seq", "raw_insert_or_update_basic", "raw_insert_or_touch_basic", "raw_touch_basic", "raw_ops_sanity_twin"],
+     ["plain_set_seq", "plain_put_seq", "sharded_get_01", "raw_apply_update_evict_a_moveback_b"],
+     outside=["clocks that go backwards or differ between hosts", "granularities other than {1 ns, 1 s, 2 s}"], assumptions=COMMON_ASSUME)
+prop("C10", ["c10_trigger", "plain_ops_sanity_twin"], ["plain_set_seq", "plain_put_seq"],
+     outside=["concurrent writers (excluded by the property)", "several caches sharing one thread's countdown"],
+     assumptions=COMMON_ASSUME + ["after maintenance at most `capacity` files remain (C07)"])
+prop("C11", ["plain_get_seq", "plain_touch_seq", "raw_insert_or_update_basic", "raw_insert_or_touch_basic", "raw_ops_sanity_twin"],
+     ["plain_set_seq", "plain_put_seq", "sharded_get_01", "sharded_get_10", "sharded_touch_01", "sharded_set_01_seq", "sharded_put_10_seq", "stack_set_w1r1"],
+     outside=["histories are covered as one inductive step from an arbitrary valid state (simulation relation), not enumerated",
+              "in-memory load estimates and the trigger countdown are arbitrary in the pre-state (this is what several handles amount to)"],
+     assumptions=COMMON_ASSUME)
+prop("C12", ["c12_mapping", "c12_constants", "c12_new_clamps", "sharded_ops_sanity_twin"],
+     ["c12_format_id", "sharded_get_01", "sharded_get_10", "sharded_touch_01", "sharded_set_01_seq", "sharded_put_10_seq"],
+     outside=["directory names for shard indices >= 2^20", "probe order is checked with the two candidate ids fixed to (0,1) and (1,0)"],
+     assumptions=COMMON_ASSUME + ["z3 and cvc5 agree (both consulted on every obligation)"])
+prop("C13", ["stack_get_w1r1_nock", "stack_touch_w1r2", "stack_set_w0r1", "stack_ops_sanity_twin"],
+     ["stack_ensure_w1r1_nock", "stack_gou_w1r1_nock", "stack_gou_w0r1_nock", "stack_gou_w2r1_nock", "stack_set_w1r1", "stack_put_w1r1",
+      "stack_set_temp_w1r1", "stack_put_temp_w2r0", "stack_put_temp_w0r1", "stack_get_w1r2_bytes", "stack_get_w0r2_bytes"],
+     outside=["stack shapes other than those listed (writer in {none, plain, sharded} x up to two plain readers)"], assumptions=COMMON_ASSUME)
+prop("C14", ["stack_get_w1r2_bytes", "stack_get_w1r1_nock", "stack_ops_sanity_twin"],
+     ["stack_get_w0r2_bytes", "stack_gou_w1r1_bytes", "stack_gou_w1r1_nock"],
+     outside=["checkers other than none / byte equality (the panicking checker is the same comparison followed by expect())"], assumptions=COMMON_ASSUME)
+prop("C15", ["stack_get_w1r1_nock", "stack_touch_w1r2", "plain_get_seq", "stack_ops_sanity_twin"],
+     ["stack_gou_w1r1_nock", "stack_gou_w0r1_nock", "stack_get_w1r2_bytes", "stack_get_w0r2_bytes", "stack_set_w1r1", "sharded_get_01", "plain_invalid_names"],
+     outside=["read-only sharded levels"], assumptions=COMMON_ASSUME)
+prop("C16", ["c16_validator", "c16_confinement", "plain_invalid_names", "c16_sanity_twin"], [],
+     outside=["names longer than 3 bytes and non-ASCII bytes (no byte >= 128 is a separator; the first-byte rule treats them as letters)",
+              "embedded NUL (rejected by std when the path is turned into a C string)"], assumptions=COMMON_ASSUME)
+prop("C17", ["raw_prune_pieces_dotfile_only", "c02_cleanup_temp_by_age", "raw_collect_a_temp", "raw_ops_sanity_twin"],
+     ["raw_prune_pieces_dotfile_and_a", "raw_collect_ab_sub", "raw_apply_update_evict_a_moveback_b"],
+     outside=["nested directories below the cache directory (never listed: directories are skipped)"], assumptions=COMMON_ASSUME)
+prop("C18", ["plain_get_fault", "plain_touch_fault", "plain_ops_sanity_twin"],
+     ["plain_set_fault", "plain_put_fault", "sharded_put_01_fault", "stack_gou_w1r1_fault", "stack_set_temp_w1r1_fault", "stack_set_w1r1_fault"],
+     outside=["more than one failing call per operation", "failures inside the caller's populate function other than its own error return",
+              "re-issuing the operation after the fault is covered by the fault-free harnesses starting from arbitrary valid states (C02)"],
+     assumptions=COMMON_ASSUME)
+prop("C19", ["plain_get_seq", "stack_get_w1r1_nock", "raw_insert_or_update_basic", "stack_ops_sanity_twin"],
+     ["stack_get_w1r2_bytes", "stack_gou_w1r1_nock", "stack_gou_w1r1_bytes", "stack_set_temp_w1r1", "stack_put_temp_w2r0", "stack_gou_w0r1_nock",
+      "plain_set_seq", "sharded_get_01"],
+     outside=["the no-writer miss path returns the throw-away temp file itself (read-write by construction): only its offset is checked"],
+     assumptions=COMMON_ASSUME + ["the process umask only influences the initial mode of caller-supplied files, which is symbolic"])
+prop("C20", ["plain_get_seq", "plain_touch_seq", "stack_get_w1r1_nock", "plain_ops_sanity_twin"],
+     ["plain_set_seq", "plain_put_seq", "sharded_get_01", "sharded_touch_01", "stack_get_w1r2_bytes", "stack_gou_w1r1_nock"],
+     outside=["the lifetime of directory streams (released inside std when the last DirEntry is dropped; not observable through the stubs)",
+              "independence from the number of entries holds because no directory listing is reachable outside maintenance (asserted)"],
+     assumptions=COMMON_ASSUME)
 
-prop("C08", [
-    K("second_chance", "c08_n0", functions=PLANNER, bounds="n=0, capacity: any usize", timeout=600, mem_gb=4),
-    K("second_chance", "c08_n1", functions=PLANNER, bounds="n=1, ranks<4, flags any, capacity: any usize; full plan", timeout=600, mem_gb=4),
-    K("second_chance", "c08_n2", functions=PLANNER, bounds="n=2, ranks<4, flags any, capacity: any usize; full plan", timeout=1200, mem_gb=8),
-    K("second_chance", "c08_n2_fullrank", functions=PLANNER, bounds="n=2, ranks: any u8, flags any, capacity: any usize; full plan", timeout=1200, mem_gb=8),
-    K("second_chance", "c08_n3_evicted", functions=PLANNER, tiers=("thorough",),
-      bounds="n=3, ranks<4, flags any, capacity: any usize; to_evict contents + both lengths (to_move_back contents not read)", timeout=2400, mem_gb=10),
-    K("second_chance", "c08_n4_evicted", functions=PLANNER, tiers=("thorough",),
-      bounds="n=4, ranks<4, flags any, capacity: any usize; to_evict contents + both lengths", timeout=5400, mem_gb=40),
-    K("second_chance", "c08_spec_planner_n2", functions=["kv_kfs::spec_planner (the planner model used by prune harnesses)"], bounds="n=2", timeout=900, mem_gb=8),
-    K("second_chance", "c08_spec_planner_n3", functions=["kv_kfs::spec_planner (the planner model used by prune harnesses)"], bounds="n=3", timeout=1800, mem_gb=12),
-    K("second_chance", "c08_sanity_twin", expect="fail", bounds="n=2", timeout=1200, mem_gb=8,
-      notes="vacuity witness: same body ending in assert!(false) must be violated"),
-],
-    level="model_checking",
-    outside=["n > 2 for the contents of to_move_back; n > 4 for to_evict (CBMC runs out of memory on Vec::drain's memmove with a symbolic length; measured)",
-             "rank domains other than {0..3} / u8; the planner only uses ranks through Ord",
-             "tie order is left free by the oracle (the statement says 'under some ordering of equally ranked entries')"],
-    assumptions=["Kani/CBMC model of alloc::vec and core::slice::sort is faithful", "CaDiCaL verdicts"] + VEC_STUBS,
-)
-
-RAW = ["raw_cache::insert_or_update", "raw_cache::insert_or_touch", "raw_cache::touch", "raw_cache::ensure_file_touched"]
-prop("T00", [
-    K("raw_ops", "kfs_selftest", functions=["KFS model self-test"], bounds="", timeout=600, rules=fs_rules()),
-    K("raw_ops", "raw_insert_or_update_basic", functions=RAW, bounds="", timeout=900, rules=fs_rules()),
-    K("raw_ops", "raw_insert_or_touch_basic", functions=RAW, bounds="", timeout=900, rules=fs_rules()),
-    K("raw_ops", "raw_touch_basic", functions=RAW, bounds="", timeout=900, rules=fs_rules()),
-    K("raw_ops", "raw_collect_ab_sub", functions=RAW, bounds="", timeout=900, rules=fs_rules()),
-    K("raw_ops", "raw_collect_a_temp", functions=RAW, bounds="", timeout=900, rules=fs_rules()),
-    K("raw_ops", "raw_prune_a_app_cap0", functions=RAW, bounds="", timeout=1200, rules=fs_rules(), mem_gb=16),
-    K("raw_ops", "raw_prune_a_app_cap1", functions=RAW, bounds="", timeout=1200, rules=fs_rules(), mem_gb=16),
-    K("raw_ops", "raw_collect_a_app", functions=RAW, bounds="", timeout=900, rules=fs_rules()),
-    K("raw_ops", "raw_collect_empty_temp", functions=RAW, bounds="", timeout=900, rules=fs_rules()),
-    K("raw_ops", "raw_apply_update_evict_a_moveback_b", functions=RAW, bounds="", timeout=900, rules=fs_rules()),
-    K("raw_ops", "raw_ops_sanity_twin", functions=RAW, bounds="", timeout=900, rules=fs_rules(), expect="fail"),
-], level="model_checking")
-
-PLAIN = ["plain::Cache::{new,get,touch,set,put}", "cache_dir::CacheDir::{get,touch,set,put,maybe_cleanup,definitely_cleanup}",
-         "cache_dir::{validate_file_name,cleanup_temporary_directory}", "trigger::PeriodicTrigger::{new,event}", "trigger::observe"] + RAW
-prop("T01", [K("plain_ops", n, functions=PLAIN, timeout=1500, rules=fs_rules(), mem_gb=10,
-               expect=("fail" if "twin" in n else "pass"))
-             for n in ["plain_get_seq", "plain_get_env", "plain_get_fault", "plain_touch_seq", "plain_touch_env", "plain_touch_fault",
-                       "plain_set_seq", "plain_put_seq", "plain_set_env", "plain_put_env", "plain_set_fault", "plain_put_fault",
-                       "plain_ops_sanity_twin"]], level="model_checking")
-
-prop("T02", [M("c12_mapping", functions=["multiplicative_hash::{reduce,mix,map}", "sharded::Cache::{shard_ids,other_shard_id}"], bounds="all u64 hashes, all usize n"),
-             M("c10_trigger", functions=["trigger::PeriodicTrigger::new", "trigger::observe", "plain::Cache::new"], bounds="all periods/capacities")],
-     level="model_checking")
-
-CDIR = ["cache_dir::validate_file_name", "cache_dir::cleanup_temporary_directory", "std::path::PathBuf::push (real)"]
-prop("T03", [K("cache_dir_ops", n, functions=CDIR, timeout=1200, rules=fs_rules(), mem_gb=8, expect=("fail" if "twin" in n else "pass"))
-             for n in ["c16_validator", "c16_confinement", "c16_sanity_twin", "c02_cleanup_temp_by_age", "c02_cleanup_temp_missing_dir"]],
-     level="model_checking")
-
-SHARDED = ["sharded::Cache::{new,get,touch,set,put,shard,sort_by_load,other_shard_id,update_estimate,force_maintain_shard,maintain_random_other_shard}",
-           "sharded::{format_id,Shard::{replace_shard,file_exists}}"] + PLAIN[1:]
-prop("T04", [K("sharded_ops", n, functions=SHARDED, timeout=1800, rules=fs_rules(), mem_gb=10, expect=("fail" if "twin" in n else "pass"))
-             for n in ["sharded_get_01", "sharded_get_10", "sharded_touch_01", "sharded_set_01_seq", "sharded_put_10_seq", "sharded_set_01_env",
-                       "sharded_put_01_fault", "c12_new_clamps", "c12_format_id", "c12_constants", "sharded_ops_sanity_twin"]],
-     level="model_checking")
-
-STACK = ["stack::{CacheBuilder::*,Cache::{get,touch,ensure,get_or_update,set,put,set_temp_file,put_temp_file,maybe_sync_path},finalize_tempfile}",
-         "readonly::{ReadOnlyCacheBuilder::*,ReadOnlyCache::{get,touch}}", "byte_equality_checker"] + SHARDED
-STACK_NAMES = ['stack_get_w1r1_nock', 'stack_get_w1r2_bytes', 'stack_get_w0r2_bytes', 'stack_touch_w1r2', 'stack_ensure_w1r1_nock', 'stack_gou_w1r1_nock', 'stack_gou_w1r1_bytes', 'stack_gou_w0r1_nock', 'stack_gou_w2r1_nock', 'stack_set_w1r1', 'stack_put_w1r1', 'stack_set_temp_w1r1', 'stack_put_temp_w2r0', 'stack_set_w0r1', 'stack_put_temp_w0r1', 'stack_gou_w1r1_nosync', 'stack_gou_w1r1_fault', 'stack_set_temp_w1r1_fault', 'stack_set_w1r1_fault']
-prop("T05", [K("stack_ops", n, functions=STACK, timeout=2400, rules=fs_rules(), mem_gb=12,
-               panic_ok=("auto_sync failed, and failure semantics are unclear",) if "fault" in n else ())
-             for n in STACK_NAMES] + [K("stack_ops", "stack_ops_sanity_twin", functions=STACK, timeout=2400, rules=fs_rules(), mem_gb=12, expect="fail")],
-     level="model_checking")
+# development aggregates (not properties): run whole harness groups
+for grp in ("raw_ops", "plain_ops", "cache_dir_ops", "sharded_ops", "stack_ops", "second_chance"):
+    PROPS["G_" + grp] = dict(units=[Use(u, ("quick", "thorough")) for u in UNITS.values() if u.group == grp])
+PROPS["G_smt"] = dict(units=[Use(u, ("quick", "thorough")) for u in UNITS.values() if u.kind == "smt"])
 
 NOT_APPLICABLE = {}
